@@ -228,7 +228,7 @@ def run(ctx):
     # ---- R5 the merge sees every op of every worker, and every unit runs against its own warp's store
     rep.rule("C02.R5", "A1: no op is dropped between the workers' deltas and the canonical sort (how ops were grouped into deltas is a scheduling accident); "
                        "no store reference outlives one claimed unit")
-    DROPPERS = r"Iterator>::(filter|filter_map|take_while|skip_while|skip|take|step_by|map_while)$|::retain(_mut)?$|::dedup(_by|_by_key)?$|BTreeSet.*::insert$|HashSet.*::insert$|BTreeMap.*::(insert|entry)$|::truncate$"
+    DROPPERS = r"Iterator>?::(filter|filter_map|take_while|skip_while|skip|take|step_by|map_while)$|::retain(_mut)?$|::dedup(_by|_by_key)?$|BTreeSet.*::insert$|HashSet.*::insert$|BTreeMap.*::(insert|entry)$|::truncate$"
     merges = [prog.fn("warp_core::engine_impl::merge_parallel_deltas")]
     md = prog.fn_opt("warp_core::parallel::merge::merge_deltas")
     if md is not None:
